@@ -17,17 +17,17 @@ from checks.common import load_known                    # noqa: E402
 INTERPRETERS = [sys.executable, "/venv/bin/python"]
 
 
-def run(tier, seed):
-    t0 = time.time()
+def evaluate(tier, seed, budget=None):
+    """the runtime contract of ProtocolEnumMeta.__call__ under every interpreter present -> (outs, failures) or an
+    error string"""
     from pyvc.gen_verify import run_generator
     tmp = tempfile.mkdtemp(prefix="verif-c14-")
     try:
         gen = os.path.join(tmp, "out")
         rc, so, se = run_generator(os.path.join(VERIF, "specs", "realistic"), gen)
         if rc != 0:
-            print("CHECKER-ERROR property=C14 generator failed on the corpus: " + se[-300:])
-            return 3
-        budget = 3000 if tier == "quick" else 200000
+            return "generator failed on the corpus: " + se[-300:]
+        budget = budget or (3000 if tier == "quick" else 200000)
         outs = []
         for py in INTERPRETERS:
             if not os.path.exists(py):
@@ -35,11 +35,20 @@ def run(tier, seed):
             p = subprocess.run([py, os.path.join(VERIF, "checks", "c14_worker.py"), repo.REPO, gen, str(seed), str(budget)],
                                capture_output=True, text=True)
             if p.returncode != 0:
-                print(f"CHECKER-ERROR property=C14 worker under {py} failed: {p.stderr[-500:]}")
-                return 3
+                return f"worker under {py} failed: {p.stderr[-500:]}"
             outs.append(json.loads(p.stdout.strip().splitlines()[-1]))
     finally:
         shutil.rmtree(tmp, ignore_errors=True)
+    return outs, [dict(f, python=o["python"]) for o in outs for f in o["failures"]]
+
+
+def run(tier, seed):
+    t0 = time.time()
+    r = evaluate(tier, seed)
+    if isinstance(r, str):
+        print("CHECKER-ERROR property=C14 " + r)
+        return 3
+    outs, _ = r
     failures = [dict(f, python=o["python"]) for o in outs for f in o["failures"]]
     ev = {"property_id": "C14", "tier": tier, "seed": seed, "level": "exploration",
           "coverage": {"evaluations": sum(o["evaluations"] for o in outs),
